@@ -3,9 +3,9 @@
 # worker variant (plain / debug / sched overlay / race) so that the first check
 # does not pay a cold build.
 set -e
-cd /verif
+cd "$(dirname "$(readlink -f "$0")")"
 export GOFLAGS=-mod=mod GOPROXY=off GOSUMDB=off GOTOOLCHAIN=local
-cp /repo/go.sum /verif/go.sum
+cp /repo/go.sum ./go.sum
 mkdir -p bin evidence replays
 go build -o bin/vcheck ./cmd/vcheck
 ./bin/vcheck --warm all >/dev/null 2>&1 || true
